@@ -37,7 +37,7 @@ func runC04(c *Ctx) {
 	c04Iteration(c, impls)
 	c04Extremes(c, impls)
 	c04Windows(c)
-	c04Shift(c)
+	c04Shift(c, "C04-D6")
 	c05Halving(c, "C04-D6")
 }
 
@@ -615,8 +615,7 @@ func c04Windows(c *Ctx) {
 // the vacated slots are reset — shift>0: indexes minIndex … minIndex+shift−1, else maxIndex+shift+1 … maxIndex;
 // offset −= shift. resetBins(from,to) zeroes bins[from−offset … to−offset]. centerCounts sets the new
 // window and shifts by offset + len/2 − mid with mid = newMin + (newMax−newMin+1)/2.
-func c04Shift(c *Ctx) {
-	const rule = "C04-D6"
+func c04Shift(c *Ctx, rule string) {
 	dense := c.P.NamedType(pkgStore, "DenseStore")
 	recvF := func(name string) *Term { return mk("field", name, nil, mk("param", "0", nil)) }
 	lin := func(terms map[*Term]int, k int) *Linear {
